@@ -766,7 +766,10 @@ class Grammar(Serialize):
                     exp_options.empty_indices = empty_indices
                     expansion = [x for x in expansion if x!=_EMPTY]
                 else:
-                    exp_options = options
+                    # Every Rule gets its own options object: Lark() negates or strips rule.options.priority
+                    # in place, once per Rule, which must not add up over the alternatives of a rule,
+                    # nor leak into other instances compiled from the same Grammar.
+                    exp_options = copy(options)
 
                 for sym in expansion:
                     assert isinstance(sym, Symbol)
